@@ -65,12 +65,18 @@ class Builder:
         body = [f"let {v} = {depth + 1};", f"let k = {10 * (depth + 1)};"] + guard + after_inner
         ind = lambda ls: ["    " + l for l in ls]
         pre = [f"let {first} = true;"]
+        # the loop's own exits come AFTER the inner construct has finished (an inner loop must not leave its labels behind):
+        # `loop` is left by a break behind the inner part, `while` / `for` continue behind it on their first round.
+        # (a `continue` as the EXIT under test restarts the body: the guard at the top still ends the loop then)
         if w == "loop":
-            return pre + [f"let {c} = 0;", "loop {", f"    if {c} >= 2 {{ break; }}", f"    {c} += 1;"] + ind(body) + ["}", f'println("after loop{depth}", {c}, k);']
+            return pre + [f"let {c} = 0;", "loop {", f"    if {c} >= 3 {{ break; }}", f"    {c} += 1;"] + ind(body) + [
+                f"    if {c} >= 2 {{ break; }};", f'    println("tail loop{depth}", {c});', "}", f'println("after loop{depth}", {c}, k);']
         if w == "while":
-            return pre + [f"let {c} = 0;", f"while {c} < 2 {{", f"    {c} += 1;"] + ind(body) + ["}", f'println("after while{depth}", {c}, k);']
+            return pre + [f"let {c} = 0;", f"while {c} < 2 {{", f"    {c} += 1;"] + ind(body) + [
+                f"    if {c} == 1 {{ continue; }};", f'    println("tail while{depth}", {c});', "}", f'println("after while{depth}", {c}, k);']
         if w == "for":
-            return pre + [f"for {c} in 0..2 {{"] + ind(body) + ["}", f'println("after for{depth}", k);']
+            return pre + [f"for {c} in 0..2 {{"] + ind(body) + [
+                f"    if {c} == 0 {{ continue; }};", f'    println("tail for{depth}", {c});', "}", f'println("after for{depth}", k);']
         if w == "block":
             return pre + ["{"] + ind(body) + ["};", f'println("after block{depth}", k);']
         if w == "if":
